@@ -1,6 +1,7 @@
 package main
 
 import (
+	"sort"
 	"strconv"
 	"strings"
 )
@@ -275,3 +276,81 @@ func (c *Ctx) recordSlice(name, term string) {
 		c.sliceParts[name] = [4]string{n.kids[1].String(), n.kids[2].String(), n.kids[3].String(), n.kids[4].String()}
 	}
 }
+
+// shiftQuant rewrites a quantified body over Int variable q whose array reads all have the form
+// (select A (+ O q)) with A and O free of q into an equivalent body over j = O + q, in which the reads are
+// (select A j) and can serve as E-matching patterns (arithmetic inside a pattern does not match reliably).
+// It returns the new body and the patterns, or ok=false when the body does not have that shape.
+func shiftQuant(body, q, j string) (string, []string, bool) {
+	root := parseSx(body)
+	var mentions func(n *sx) bool
+	mentions = func(n *sx) bool {
+		if n.kids == nil {
+			return n.atom == q
+		}
+		for _, k := range n.kids {
+			if mentions(k) {
+				return true
+			}
+		}
+		return false
+	}
+	off := ""
+	pats := map[string]bool{}
+	ok := true
+	var walk func(n *sx) *sx
+	walk = func(n *sx) *sx {
+		if n.kids == nil {
+			return n
+		}
+		if len(n.kids) == 3 && n.kids[0].atom == "select" && mentions(n.kids[2]) {
+			idx := n.kids[2]
+			if mentions(n.kids[1]) || idx.kids == nil || len(idx.kids) != 3 || idx.kids[0].atom != "+" || idx.kids[2].atom != q || idx.kids[2].kids != nil || mentions(idx.kids[1]) {
+				ok = false
+				return n
+			}
+			o := idx.kids[1].String()
+			if off == "" {
+				off = o
+			} else if off != o {
+				ok = false
+				return n
+			}
+			nn := &sx{kids: []*sx{n.kids[0], n.kids[1], atomSx(j)}}
+			pats[nn.String()] = true
+			return nn
+		}
+		out := &sx{}
+		for _, k := range n.kids {
+			out.kids = append(out.kids, walk(k))
+		}
+		return out
+	}
+	nb := walk(root)
+	if !ok || off == "" {
+		return "", nil, false
+	}
+	// remaining occurrences of q become (- j off)
+	var subst func(n *sx) *sx
+	subst = func(n *sx) *sx {
+		if n.kids == nil {
+			if n.atom == q {
+				return parseSx("(- " + j + " " + off + ")")
+			}
+			return n
+		}
+		out := &sx{}
+		for _, k := range n.kids {
+			out.kids = append(out.kids, subst(k))
+		}
+		return out
+	}
+	var ps []string
+	for p := range pats {
+		ps = append(ps, p)
+	}
+	sortStrings(ps)
+	return subst(nb).String(), ps, true
+}
+
+func sortStrings(a []string) { sort.Strings(a) }
